@@ -9,11 +9,13 @@
    (any bitmap, any buffer), asprintf = snprintf, "sscanf returns 0 or -1 and
    never reads outside" for every NUL-terminated string (list, taskset, hwloc:
    /repo eea9042 fixed the over-read on "" and the assert on a leading comma).
-   What is only proved on a bounded domain (suffix _partial): the three round
-   trips and parse-then-print-then-parse stability. *)
+   The three round trips parse (print b) = b are proved for every well-formed
+   bitmap (list: every set whose indexes fit an int), and stability of every
+   accepted value follows.  The bounded sweeps (suffix _partial) are kept as
+   executable cross-checks of the same statements. *)
 From Coq Require Import String Ascii.
 From Coq Require Import NArith ZArith List Bool.
-From HV Require Import Base.BSet Base.Bytes Base.Strto Base.Snprintf Bitmap.BitmapText Bitmap.BitmapTextProofs Bitmap.BitmapTextProofsList Bitmap.BitmapTextProofsTaskset Bitmap.BitmapTextProofsHwloc.
+From HV Require Import Base.BSet Base.Bytes Base.Strto Base.Snprintf Bitmap.BitmapText Bitmap.BitmapTextProofs Bitmap.BitmapTextProofsList Bitmap.BitmapTextProofsTaskset Bitmap.BitmapTextProofsHwloc Bitmap.BitmapTextProofsWf.
 Import ListNotations.
 Local Open Scope N_scope.
 
@@ -105,12 +107,13 @@ Theorem roundtrip_taskset : forall dirty b, bm_wf b ->
 Proof. exact roundtrip_taskset_gen. Qed.
 Print Assumptions roundtrip_taskset.
 
-(* stability of what the parser accepts, given that the accepted words are < 2^64
-   (they are strtoul values; that fact itself is not proved here, hence the hypothesis) *)
-Theorem parse_stable_taskset : forall dirty str b, parse_taskset dirty str = Ok (PSet b) -> bm_wf b ->
+(* whatever hwloc_bitmap_taskset_sscanf accepts is stable under print-then-parse
+   ([dirty] is the previous content of a 64-bit word, hence < 2^64) *)
+Theorem parse_stable_taskset : forall dirty str b, dirty < W64 -> parse_taskset dirty str = Ok (PSet b) ->
   exists b', parse_taskset dirty (text_taskset b ++ [0]) = Ok (PSet b') /\ abs b' = abs b.
 Proof.
-  intros dirty str b _ Hwf. destruct (roundtrip_taskset_gen dirty b Hwf) as [b' [H1 [H2 _]]]. eauto.
+  intros dirty str b Hd H. pose proof (parse_taskset_wf dirty str b Hd H) as Hwf.
+  destruct (roundtrip_taskset_gen dirty b Hwf) as [b' [H1 [H2 _]]]. eauto.
 Qed.
 Print Assumptions parse_stable_taskset.
 
@@ -125,20 +128,22 @@ Theorem roundtrip_hwloc : forall dirty b, bm_wf b ->
 Proof. exact roundtrip_hwloc_gen. Qed.
 Print Assumptions roundtrip_hwloc.
 
-Theorem parse_stable_hwloc : forall dirty str b, parse_hwloc dirty str = Ok (PSet b) -> bm_wf b ->
+(* whatever hwloc_bitmap_sscanf accepts is stable under print-then-parse: every
+   NUL-terminated or not, any string; the accepted words are < 2^64 (proved) *)
+Theorem parse_stable_hwloc : forall dirty str b, parse_hwloc dirty str = Ok (PSet b) ->
   exists b', parse_hwloc dirty (text_hwloc b ++ [0]) = Ok (PSet b') /\ abs b' = abs b.
 Proof.
-  intros dirty str b _ Hwf. destruct (roundtrip_hwloc_gen dirty b Hwf) as [b' [H1 [H2 _]]]. eauto.
+  intros dirty str b H.
+  assert (Hwf : bm_wf b).
+  { apply (parse_hwloc_gen_wf hwloc_sscanf_fixed hwloc_sscanf_zeroed 0 str b); [reflexivity|].
+    rewrite <- H. apply (parse_hwloc_zeroed_deterministic true). }
+  destruct (roundtrip_hwloc_gen dirty b Hwf) as [b' [H1 [H2 _]]]. eauto.
 Qed.
 Print Assumptions parse_stable_hwloc.
 
-(* ================= round trip and stability: bounded domain only =================
-   MISSING for the full statements: the induction over the printed groups /
-   ranges / nibbles relating the parser loops to the printer loops (string-level
-   invariants plus N.shiftr/land word arithmetic).  The statements below are
-   finite sweeps (vm_compute), the bound is in each statement; beyond it the
-   round trip is only tested (checks/c04.py: on the C code itself and on the
-   model, >= 5k bitmaps per run, both always agreeing). *)
+(* ================= bounded sweeps (vm_compute), kept as cross-checks =================
+   The general theorems above subsume them; they exercise the executable
+   boolean forms used by the driver. *)
 Theorem roundtrip_partial : forall b,
   Forall (fun w => In w WORD_POOL) (bm_words b) -> (length (bm_words b) <= 3)%nat ->
   rt_hwloc_ok b = true /\ rt_taskset_ok b = true /\ rt_list_ok (abs b) = true.
